@@ -137,6 +137,7 @@ type c12glue struct {
 	fail    string
 	nviol   int
 	lossBudget int
+	syncFailBudget int // transient SyncPartitions failures to inject (each costs retryInterval = 5 s)
 	failovers  int
 	stats   map[string]int64
 }
@@ -732,7 +733,13 @@ func (g *c12glue) evCNewPart(lost, deposeBefore bool, next int) bool {
 	return true
 }
 
-func (g *c12glue) evCHeartbeat(lost bool) bool {
+func (g *c12glue) evCHeartbeat(lost bool) bool { return g.evCHeartbeatF(lost, false) }
+
+// evCHeartbeatF: one heartbeat round; with trySyncFail (and if this round would sync) the curator group's durable
+// state is put in read-only mode while the reply is delivered, so the FIRST SyncPartitions fails transiently
+// (ErrReadOnlyMode); heartbeatLoop must then leave its cache alone, sleep and retry, and a later completed round must
+// still recover the assignment.
+func (g *c12glue) evCHeartbeatF(lost, trySyncFail bool) bool {
 	k := g.leader
 	n := g.nodes[k]
 	ps, err := g.masterHeartbeat(n.id)
@@ -740,7 +747,17 @@ func (g *c12glue) evCHeartbeat(lost bool) bool {
 	if lost {
 		lostF = 1
 	}
-	g.op(25, int64(k), lostF)
+	syncFail := false
+	if err == core.NoError && !lost && trySyncFail && g.syncFailBudget > 0 && len(ps) != len(g.cache(n)) {
+		syncFail = true
+		g.syncFailBudget--
+	}
+	if syncFail {
+		g.op(30, int64(k))
+		g.stat("glue.ev.cheartbeat.syncfail")
+	} else {
+		g.op(25, int64(k), lostF)
+	}
 	call := n.hbC
 	n.hbC = nil
 	g.stat(fmt.Sprintf("glue.ev.cheartbeat.lost=%d", lostF))
@@ -775,9 +792,28 @@ func (g *c12glue) evCHeartbeat(lost bool) bool {
 			}
 		}
 		before := len(g.cache(n))
+		if syncFail {
+			if e := g.sh.SetReadOnlyMode(true); e != core.NoError {
+				g.fail = "could not set curator read-only mode: " + e.String()
+				return false
+			}
+		}
 		call.resp <- c12resp{parts: ps}
 		if !g.await(n, "next heartbeat", func() bool { return n.hbC != nil }) {
 			return false
+		}
+		if syncFail {
+			if e := g.sh.SetReadOnlyMode(false); e != core.NoError {
+				g.fail = "could not clear curator read-only mode: " + e.String()
+				return false
+			}
+			var l vw.L
+			l.Add(1)
+			l.AddList(c12parts(ps))
+			_, dps := g.durableInfo()
+			l.AddList(dps)
+			g.obs(l...)
+			return true
 		}
 		if len(ps) != before {
 			g.stat("glue.heartbeat.synced")
@@ -996,7 +1032,7 @@ func (g *c12glue) run() {
 				}
 			case c12pcRun:
 				if g.r.Chance(1, 2) {
-					ok = g.evCHeartbeat(g.r.Chance(1, 4))
+					ok = g.evCHeartbeatF(g.r.Chance(1, 4), true)
 				} else {
 					ok = g.evCMonitor(g.r.Chance(1, 3))
 				}
@@ -1045,6 +1081,9 @@ func TestVerifC12Glue(t *testing.T) {
 			if vw.Thorough() {
 				g.lossBudget = 2
 			}
+		} else if g.r.Chance(1, 3) {
+			// one transient SyncPartitions failure (5 s as well)
+			g.syncFailBudget = 1
 		}
 		cases[ci] = g
 		wg.Add(1)
